@@ -130,7 +130,12 @@ func c13EngineBlocked(buf []byte) map[uint64]bool {
 			continue
 		}
 		st := h[sp+1:]
-		if !bytes.HasPrefix(st, []byte("[sync.")) && !bytes.HasPrefix(st, []byte("[semacquire")) {
+		// only the wait reasons of sync.Mutex / sync.RWMutex ("semacquire" is also the
+		// runtime's own reason, e.g. an allocating goroutine waiting for a GC phase)
+		if !bytes.HasPrefix(st, []byte("[sync.Mutex.Lock")) && !bytes.HasPrefix(st, []byte("[sync.RWMutex.")) {
+			continue
+		}
+		if !bytes.HasPrefix(lines[1], []byte("sync.")) {
 			continue
 		}
 		// frames: function line, then "\t file:line" line
@@ -671,7 +676,7 @@ func (r *c13Run) liveRegs() []*c13Reg {
 // round k among the eligible ones (value mod count); a value >= 1000 also injects a fault
 // into the call the thread is parked at.
 func (r *c13Run) run(script []int, maxRounds int) (deadlock bool) {
-	ghostRunning := map[int]bool{}
+	ghostRunning := map[int]int{} // 0 not running, 1 running, 2 unknown
 	for round := 0; ; round++ {
 		if r.allDone() {
 			return false
@@ -748,10 +753,23 @@ func (r *c13Run) run(script []int, maxRounds int) (deadlock bool) {
 			}
 		}
 		r.mu.Unlock()
+		// Start/Stop calls on one name that finished in the same round: their order is not
+		// observable, so the ghost flag of that name is unknown until the next acknowledged call
+		fin := map[int]int{}
+		for _, u := range r.th {
+			if u.state == c13Done && !u.seen && (u.op.Op == "start" || u.op.Op == "stop") {
+				fin[u.op.N]++
+			}
+		}
 		for _, u := range r.th {
 			if u.state == c13Done && !u.seen {
 				u.seen = true
 				r.afterDone(u, ghostRunning)
+			}
+		}
+		for n, k := range fin {
+			if k > 1 {
+				ghostRunning[n] = 2
 			}
 		}
 	}
@@ -759,16 +777,16 @@ func (r *c13Run) run(script []int, maxRounds int) (deadlock bool) {
 
 // afterDone evaluates the sequential clauses for a thread that ran alone in its phase, and
 // keeps the ghost "running" flag (last acknowledged Start/Stop).
-func (r *c13Run) afterDone(t *c13Thread, ghost map[int]bool) {
+func (r *c13Run) afterDone(t *c13Thread, ghost map[int]int) {
 	op := t.op
 	switch op.Op {
 	case "start":
 		if t.res == "ok" {
-			ghost[op.N] = true
+			ghost[op.N] = 1
 		}
 	case "stop":
 		if t.res == "ok" {
-			ghost[op.N] = false
+			ghost[op.N] = 0
 		}
 	}
 	if !r.alone(t) {
@@ -776,8 +794,8 @@ func (r *c13Run) afterDone(t *c13Thread, ghost map[int]bool) {
 	}
 	switch op.Op {
 	case "isRunning":
-		if t.res != strconv.FormatBool(ghost[op.N]) {
-			r.mon("C13:isrunning-mismatch", fmt.Sprintf("IsRunning(%d) = %s but the last acknowledged Start/Stop says %v", op.N, t.res, ghost[op.N]))
+		if ghost[op.N] != 2 && t.res != strconv.FormatBool(ghost[op.N] == 1) {
+			r.mon("C13:isrunning-mismatch", fmt.Sprintf("IsRunning(%d) = %s but the last acknowledged Start/Stop says %v", op.N, t.res, ghost[op.N] == 1))
 		}
 	case "startWatches":
 		if t.res != "ok" {
